@@ -94,7 +94,7 @@ Definition catch (t : N) (r : outcome * state) : outcome * state :=
   end.
 
 Section S.
-  Variable defs : list (list form).
+  Variable defs : list def.
 
   Fixpoint seval (fuel : nat) (bl tg : list N) (f : form) (st : state) {struct fuel} : outcome * state :=
     match fuel with
@@ -201,7 +201,8 @@ Section S.
       | CallU i =>
           match nth_error defs i with
           | None => (Err CUndefFn, st)
-          | Some body => catch (fn_tag i) (s_seq (ev [fn_tag i] []) body VNil st)
+          | Some (_, body) =>                (* the blocks around the defun form have exited when the function is called *)
+              catch (fn_tag i) (s_seq (ev [fn_tag i] []) body VNil st)
           end
       | Unless c body =>
           match ev bl tg c st with
@@ -290,10 +291,10 @@ Fixpoint gd (R G : list N) (f : form) {struct f} : bool :=
   end.
 
 (* a function body sees its own block only *)
-Fixpoint gd_defs (i : nat) (defs : list (list form)) : bool :=
+Fixpoint gd_defs (i : nat) (defs : list def) : bool :=
   match defs with
   | [] => true
-  | b :: r => g_all gd [fn_tag i] [] b && gd_defs (S i) r
+  | (_, b) :: r => g_all gd [fn_tag i] [] b && gd_defs (S i) r
   end.
 
 (* well-formed: what the rendering into Lisp needs to be injective and accepted by the argument-count
@@ -319,6 +320,9 @@ Fixpoint wf (f : form) {struct f} : bool :=
   | Loop _ _ is res => alli is && wf res
   | Do _ is res => alli is && all res
   end.
-Definition wf_prog (p : prog) : bool := wf (snd p) && forallb (forallb wf) (fst p).
+(* a defining context is made of let scopes (false, 0) and blocks (true, b) with b nil or one of b1..b49 *)
+Definition wf_dscope (s : scope) : bool := if fst s then N.ltb (snd s) 50 else N.eqb (snd s) 0.
+Definition wf_def (d : def) : bool := forallb wf_dscope (fst d) && forallb wf (snd d).
+Definition wf_prog (p : prog) : bool := wf (snd p) && forallb wf_def (fst p).
 
 Definition guard (p : prog) : bool := gd [] [] (snd p) && gd_defs 0 (fst p).
